@@ -22,6 +22,8 @@
               module environments, objects, closures and the returned value
      canary - the canary directory is unchanged
      ran    - a script file that is no module (the canary's script) was run
+     n      - how many times in a row this very observation was made (identical
+              records are folded; the verdict holds for each of them)
    An observation the property forbids is reported (@@BAD@@ with the clause)
    and the walk goes on, so every offending event is listed. *)
 EXTENDS SecureOps, TLC, Json, IOUtils
@@ -45,6 +47,7 @@ Step ==
   /\ CASE Ev.op = "new" -> flag' = CliSecure(Elems(Ev.opts))
        [] Ev.op = "obs" ->
             /\ flag' = flag                                   \* FlagImmutable
+            /\ Check(Ev.n >= 1, "malformed")
             /\ flag =>
                  /\ Check(Ev.flag = "TRUE",                     \* FlagIsConfig / FlagImmutable
                           IF Ev.phase = "cli" THEN "front-end-not-secure" ELSE "flag-changed")
